@@ -412,6 +412,9 @@ class Enc:
         if f not in ('true', 'null'):
             if self.scan_ranges is not None:
                 keeps = self.range_keep(show(f), r, t)
+                if self.contracts.get('scan_filter_reapplied'):
+                    # executor contract (probed): the pushed predicate is also evaluated on the rows storage returns
+                    keeps = [And(k, istrue(self._bool(self.expr(f, r, row, outer)))) for k, (pr, row) in zip(keeps, r.rows)]
             else:
                 keeps = [istrue(self._bool(self.expr(f, r, row, outer))) for pr, row in r.rows]
             r = Rel(r.schema, [(And(pr, k), row) for (pr, row), k in zip(r.rows, keeps)], types, r.okeys)
